@@ -224,6 +224,30 @@ func runC12(p *an.Prog, r *an.Run, tier string) {
 	}
 	r.Floor("store-methods", n, 15)
 
+	// ---- limit-agree: both drivers treat limit > 0 as a cap and 0 as unlimited
+	for _, d := range []*types.Named{mem, bad} {
+		m := p.MethodOf(d, "ActiveHosts")
+		if m == nil {
+			continue
+		}
+		var app *ssa.Call
+		for _, fn := range an.WithAnon(m) {
+			for _, c := range an.Calls(fn, false) {
+				if b, ok := c.Common().Value.(*ssa.Builtin); ok && b.Name() == "append" {
+					if sl, ok := c.Common().Args[0].Type().Underlying().(*types.Slice); ok && isNamedType(sl.Elem(), "Node") {
+						app, _ = c.(*ssa.Call)
+					}
+				}
+			}
+		}
+		if app == nil {
+			r.Undec("limit-agree", driverKind(d), m.Pos(), "no result append found in ActiveHosts")
+			continue
+		}
+		why := limitSemantics(p, d, m, app)
+		r.Check(len(why) == 0, "limit-agree", driverKind(d), m.Pos(), "limit > 0 caps the result, limit 0 means unlimited", "%s", strings.Join(why, "; "))
+	}
+
 	// ---- memory SetNode keeps peers
 	if sn := p.MethodOf(mem, "SetNode"); sn != nil {
 		okKeep := false
